@@ -463,7 +463,10 @@ def rand_matprop(rng, idx, gloss, cls, force=False):
             v.dflt = [dec_short(rng)]
         m.pars.append(v)
     for v in m.inputs + [m.output]:
-        finalize_bounds(rng, v, m.unit_system, gloss, cls)
+        if not force:           # the forced law stays unbounded: its calls must reach the body whatever the arguments
+            finalize_bounds(rng, v, m.unit_system, gloss, cls)
+        elif m.unit_system and v.extkind == "glossary" and v.ext in gloss:
+            v.extkind, v.ext = None, v.name
     for v in m.pars:            # no @Bounds on parameters in this DSL: only what the glossary gives
         if m.unit_system and v.extkind == "glossary" and v.ext in gloss:
             v.phys_inherited = Bnd(*gloss[v.ext])
@@ -863,6 +866,8 @@ def run(ck):
                     ask(mplib, m.f, None, "mpcall %d %s" % (len(a), " ".join(bits(x) for x in a)), ("same-as", r), "set-exported-default",
                         dict(rep, parameter=p.ext, declared_default=p.dflt[0], arguments=[repr(x) for x in a]), p)
                     stats["setparameter_calls"] += 1
+            for p in m.pars:      # back to the declared values: the twin comparison below starts from them
+                ask(mplib, m.f, None, "mpset %s %s" % (p.name, bits(float(p.dflt[0]))), "ok", "setparameter", dict(rep, parameter=p.ext))
         # setParameter = regeneration with that default value (twin law), compared on calls
         for (m, p, newv, tname, over) in twins:
             tf = (m.material + "_" if m.material else "") + tname
@@ -895,8 +900,8 @@ def run(ck):
             continue
         query = lines[i].split(None, 3)[3].strip()
         rep = dict(rep, query=query, declared=show_answer(exp), library_answer=show_answer(g), elm_what=what)
-        if isinstance(var, tuple):          # setParameter against the twin law: differs when the twin's default was written with 14 digits
-            cause = CAUSE_B if float("%.14g" % float(var[1])) != float(var[1]) else None
+        if isinstance(var, tuple):          # setParameter against the twin law
+            cause = None
         else:
             cause = root_cause(var, persistent, what.startswith("mp-"), exp.split(","), g.split(",")[:len(exp.split(","))])
         note(cause or "elm:%s:%s" % (what, diff_class(exp, g)), "viol",
